@@ -133,9 +133,13 @@ def enumerated_values(model: Model, ex, run: Run) -> None:
     for q in sorted(enums):
         k = model.classes[q]
         vals = {}
+        fo_ = Folder(model)
         for name, e in k.consts.items():
             try:
-                v = Folder(model).fold(e, k.module)
+                if isinstance(e, ast.Call) and norm(e.func).endswith("auto"):
+                    v = fo_.enum_member(q, name).value        # enum.auto(): numbered from the member before it
+                else:
+                    v = fo_.fold(e, k.module)
             except Exception:
                 continue
             if isinstance(v, int) and not isinstance(v, bool):
